@@ -86,6 +86,9 @@ def main(argv=None):
         i, n = map(int, a.shard.split('/'))
         ctx = Ctx(prop, a.tier, seed, i, n)
         d = run_shard(mod, ctx)
+        import numpy as np
+        np.save(a.out + '.nt.npy', np.array(d.pop('nt'), dtype=np.uint64))
+        d['nt'] = []
         with open(a.out, 'w') as f:
             json.dump(d, f)
         return 0
@@ -137,7 +140,14 @@ def main(argv=None):
                 dead.append('shard %d: exit %s: %s' % (i, p.returncode, (so or b'').decode(errors='replace')[-1500:]))
                 continue
             with open(out) as f:
-                dumps.append(json.load(f))
+                dd = json.load(f)
+            try:
+                import numpy as np
+                dd['nt'] = np.load(out + '.nt.npy')
+                os.unlink(out + '.nt.npy')
+            except OSError:
+                pass
+            dumps.append(dd)
             os.unlink(out)
     res = core.merge(dumps) if dumps else core.merge([Ctx(prop).dump()])
 
@@ -204,7 +214,7 @@ def main(argv=None):
         if old.startswith(prop + '-'):
             os.unlink(os.path.join(rdir, old))
     for v in unlisted:
-        name = '%s-%s.json' % (prop, core.hkey(json.dumps(v['sig'], sort_keys=True, default=str), v.get('regression_of')))
+        name = '%s-%016x.json' % (prop, core.hkey(json.dumps(v['sig'], sort_keys=True, default=str), v.get('regression_of')))
         path = os.path.join(rdir, name)
         rec = dict(property=prop, sig=v['sig'], detail=v['detail'], case=v['case'], seed=v.get('seed', seed),
                    tier=v.get('tier', a.tier), count=v.get('count', 1),
